@@ -457,7 +457,13 @@ func rulePanicIfaceCmp(c *Ctx) []*Obligation {
 					}
 					return false
 				}
-				if !payload(bo.X) && !payload(bo.Y) {
+				// values of the empty interface type inside the variants package are payloads too (helpers that
+				// receive two payloads as parameters)
+				emptyIface := func(v ssa.Value) bool {
+					it, ok := v.Type().Underlying().(*types.Interface)
+					return ok && it.NumMethods() == 0 && c.relPkg(fn.Pkg.Pkg) == pkgVariants
+				}
+				if !payload(bo.X) && !payload(bo.Y) && !(emptyIface(bo.X) && emptyIface(bo.Y)) {
 					o.ok(key, c.Pos(bo.Pos()), "interface comparison of non-payload values (states, functions, variables: comparable pointer types)")
 					continue
 				}
